@@ -272,7 +272,7 @@ class Findings:
 
     def lookup(self, prop, key):
         for (p, k, text) in self.known:
-            if k == key and (p == prop or True):
+            if k == key and p == prop:
                 return text
         return None
 
@@ -314,6 +314,12 @@ class Result:
         seen = {}
         for key, rec in self.violations:
             seen.setdefault(key, []).append(rec)
+        if os.environ.get("YV_DUMP"):
+            with open(os.environ["YV_DUMP"], "w") as f:
+                for key, rec in self.violations:
+                    f.write(json.dumps({"key": key, "rec": rec}, default=str) + "\n")
+                for key, (cnt, text, rec) in self.known_hits.items():
+                    f.write(json.dumps({"key": key, "known": cnt, "rec": rec}, default=str) + "\n")
         for key, recs in seen.items():
             h = hashlib.sha1((self.prop + key + json.dumps(recs[0], sort_keys=True, default=str)).encode()).hexdigest()[:10]
             path = os.path.join(VERIF, "replays", "%s_%s.json" % (self.prop, h))
